@@ -156,6 +156,9 @@ pub struct WasmRun {
     pub nin: usize,
     pub nout: usize,
     pub wasm_bytes: Vec<u8>,
+    /// dsp state skeleton of the program currently running (what the CLI keeps in `OldWasmProgram`)
+    pub skel: Option<state_tree::tree::StateTreeSkeleton<mimium_lang::mir::StateType>>,
+    pub scheduler: bool,
 }
 
 pub fn wasm_start(src: &str, scheduler: bool) -> Result<WasmRun, Vec<String>> {
@@ -179,12 +182,13 @@ pub fn wasm_start(src: &str, scheduler: bool) -> Result<WasmRun, Vec<String>> {
     let wasm_workers = ctx.generate_wasm_audioworkers();
     let mut engine = WasmEngine::new(&ext_fns, plugin_fns).map_err(|e| vec![format!("wasm engine: {e}")])?;
     engine.load_module(&wasm_bytes).map_err(|e| vec![format!("wasm load: {e}")])?;
+    let skel = dsp_skeleton.clone();
     let mut rt = WasmDspRuntime::new(engine, io_channels, dsp_skeleton);
     rt.set_wasm_audioworkers(wasm_workers);
     rt.set_sample_rate(48000.0);
     rt.run_main().map_err(|e| vec![format!("wasm main: {e}")])?;
     let (nin, nout) = io_channels.map_or((0, 0), |io| (io.input as usize, io.output as usize));
-    Ok(WasmRun { ctx, rt, nin, nout, wasm_bytes })
+    Ok(WasmRun { ctx, rt, nin, nout, wasm_bytes, skel, scheduler })
 }
 
 impl WasmRun {
@@ -222,4 +226,65 @@ pub fn run_wasm(src: &str, cfg: &RunCfg) -> Outcome {
         Ok(o) => o,
         Err(e) => Outcome::Panic(panic_msg(e)),
     }
+}
+
+/// Hot swap on the VM: compile `src2` with the running context's compiler and hand the program to
+/// `VmDspRuntime::try_hot_swap` (-> `Machine::new_resume`). A compile error leaves the runtime untouched (Err).
+pub fn vm_swap(vm: &mut VmRun, src2: &str) -> Result<bool, Vec<String>> {
+    let prog = vm.ctx.get_compiler().ok_or(vec!["no compiler".to_string()])?.emit_bytecode(src2).map_err(|e| errs_to_strings(&e))?;
+    let ok = vm.rd.resume_with_program(runtime::ProgramPayload::VmProgram(prog));
+    let (nin, nout) = vm.rd.io_channels().map_or((0, 0), |io| (io.input as usize, io.output as usize));
+    vm.nin = nin;
+    vm.nout = nout;
+    Ok(ok)
+}
+
+/// Hot swap on WASM. The payload is built the way `mimium-cli`'s `prepare_hot_swap_wasm_payload` builds it
+/// (that function is private to the CLI: prewarm a fresh engine by running `main`, take its global state, build the
+/// patch plan from the previous and the new dsp skeleton with `state_tree::build_state_storage_patch_plan`, whole-copy
+/// plan when the skeletons are equal); the swap itself is the real `WasmDspRuntime::try_hot_swap`.
+pub fn wasm_swap(w: &mut WasmRun, src2: &str) -> Result<bool, Vec<String>> {
+    use mimium_lang::compiler::wasmgen::WasmGenerator;
+    use mimium_lang::runtime::wasm::engine::{WasmDspRuntime, WasmEngine};
+    use state_tree::{StateStoragePatchPlan, patch::CopyFromPatch};
+    use std::sync::Arc;
+    let mut ext_fns = w.ctx.get_extfun_types();
+    ext_fns.sort_by(|a, b| a.name.as_str().cmp(b.name.as_str()));
+    ext_fns.dedup_by(|a, b| a.name == b.name);
+    let mir = w.ctx.get_compiler().ok_or(vec!["no compiler".to_string()])?.emit_mir(src2).map_err(|e| errs_to_strings(&e))?;
+    let new_skel = mir.get_dsp_state_skeleton().cloned();
+    let mut generator = WasmGenerator::new(Arc::new(mir), &ext_fns);
+    let bytes = generator.generate().map_err(|e| vec![format!("wasmgen: {e}")])?;
+    // prewarm (CLI: try_prewarm_wasm_global_state)
+    let mut engine = WasmEngine::new(&ext_fns, None).map_err(|e| vec![format!("prewarm engine: {e}")])?;
+    engine.load_module(&bytes).map_err(|e| vec![format!("prewarm load: {e}")])?;
+    let mut prt = WasmDspRuntime::new(engine, None, None);
+    prt.run_main().map_err(|e| vec![format!("prewarm main: {e}")])?;
+    let prewarmed: Vec<u64> = prt.engine_mut().get_global_state_data().map(|d| d.to_vec()).ok_or(vec!["no prewarmed state".to_string()])?;
+    let prepared_engine = Box::new(prt.into_engine());
+    // plan (CLI: build_required_state_patch_plan)
+    let plan = if let (Some(old), Some(new)) = (w.skel.clone(), new_skel.clone()) {
+        match state_tree::build_state_storage_patch_plan(old, new.clone()) {
+            Some(p) => p,
+            None => {
+                let total = new.total_size() as usize;
+                StateStoragePatchPlan { total_size: total, patches: vec![CopyFromPatch { src_addr: 0, dst_addr: 0, size: total }] }
+            }
+        }
+    } else {
+        StateStoragePatchPlan { total_size: prewarmed.len(), patches: vec![] }
+    };
+    let payload = runtime::ProgramPayload::WasmModule {
+        bytes: bytes.clone(),
+        prepared_engine,
+        dsp_state_skeleton: new_skel.clone(),
+        state_patch_plan: plan,
+        prewarmed_global_state: prewarmed,
+    };
+    let ok = w.rt.try_hot_swap(payload);
+    if ok {
+        w.skel = new_skel;
+        w.wasm_bytes = bytes;
+    }
+    Ok(ok)
 }
